@@ -45,7 +45,7 @@ theorem array_access_no_panic (P : Platform) (f : Nat) (a i : Expr) (line env : 
     (σ σ1 σ2 : Store) (av iv : Val) (h0 : σ.hadError = false)
     (ha : evalE P f a env repl σ = .ok (av, .none) σ1) (hi : evalE P f i env repl σ1 = .ok (iv, .none) σ2) :
     evalE P (f + 1) (.arrayAccess a i line) env repl σ ≠ .abn .panic := by
-  rw [evalE]; simp only [h0, ha, hi]
+  rw [evalE]; simp only [guardErr, ER.seq, Res.bind, h0, ha, hi]
   simp
   cases hc : checkIndex σ2 av iv "Invalid array access. Not an array." with
   | error m => simp [nilOk]
@@ -67,18 +67,19 @@ theorem evalList_length (P : Platform) : ∀ (f : Nat) (es : List Expr) (env : N
     | cons e es =>
       rw [evalList] at h
       cases he : evalE P f e env repl σ with
-      | abn x => simp [he] at h
+      | abn x => simp [he, Res.bind] at h
       | ok p σ1 =>
         obtain ⟨v, sig⟩ := p
-        simp only [he] at h
+        simp only [he, Res.bind] at h
         by_cases hs : sig = .none
         · subst hs
-          simp at h
+          simp only [ne_eq, not_true_eq_false, if_false] at h
           cases hr : evalList P f es env repl σ1 with
           | abn x => simp [hr] at h
           | ok q σ2 =>
             obtain ⟨vs', sig2⟩ := q
-            simp [hr] at h
+            simp only [hr] at h
+            simp only [Res.ok.injEq, Prod.mk.injEq] at h
             obtain ⟨⟨rfl, rfl⟩, rfl⟩ := h
             simp [ih es env repl σ1 σ2 vs' hr]
         · simp [hs] at h
@@ -87,7 +88,7 @@ theorem call_binding_no_panic (P : Platform) (f : Nat) (id : Nat) (args : List V
     (hcl : σ.funs[id]? = some cl) (hn : args.length = cl.params.length)
     (hbody : ∀ env σ', runBody P f cl.body env σ' ≠ .abn .panic) :
     callFn P (f + 1) id args σ ≠ .abn .panic := by
-  rw [callFn]; simp only [hcl]
+  rw [callFn]; simp only [guardErr, ER.seq, Res.bind, hcl]
   have : ¬ args.length < cl.params.length := by omega
   simp [this]
   intro h
